@@ -270,13 +270,20 @@ struct runner
 		return *p;
 	}
 
+	int api_depth = 0;
+	struct api_guard { int& d; explicit api_guard(int& x) : d(x) { ++d; } ~api_guard() { --d; } };
+
 	void run_handler(long long h, std::string const& args)
 	{
+		// a completion handler must never run from inside an initiating call
+		if (api_depth > 0) tr.line("INLINE %lld", h);
 		tr.line("L t=%lld 1 %lld%s", now_ns(), h, args.c_str());
 		auto it = handlers.find(h);
 		if (it == handlers.end()) return;
 		std::vector<toks> ops = it->second;
+		int const saved = api_depth; api_depth = 0;
 		for (auto const& o : ops) op(o, 0);
+		api_depth = saved;
 	}
 
 	static std::string epf(asio::ip::address const& a, int port)
@@ -338,6 +345,7 @@ struct runner
 
 	void op(toks const& t, size_t k)
 	{
+		api_guard guard(api_depth);
 		std::string const& c = t[k];
 		auto arg = [&](size_t i) { return ll(t[k + i]); };
 		if (c == "post")
